@@ -572,6 +572,19 @@ class FormulaEngine3Phase(Generic[QuantityT]):
                 phase_1 = await phase_1_rx.receive()
                 phase_2 = await phase_2_rx.receive()
                 phase_3 = await phase_3_rx.receive()
+                # The per-phase engines start independently, so their streams don't
+                # necessarily begin at the same timestamp.  Skip the samples of the
+                # phases that are behind, until all three are in step.
+                while not phase_1.timestamp == phase_2.timestamp == phase_3.timestamp:
+                    latest_ts = max(
+                        phase_1.timestamp, phase_2.timestamp, phase_3.timestamp
+                    )
+                    if phase_1.timestamp < latest_ts:
+                        phase_1 = await phase_1_rx.receive()
+                    if phase_2.timestamp < latest_ts:
+                        phase_2 = await phase_2_rx.receive()
+                    if phase_3.timestamp < latest_ts:
+                        phase_3 = await phase_3_rx.receive()
                 msg = Sample3Phase(
                     phase_1.timestamp,
                     phase_1.value,
